@@ -17,7 +17,10 @@ import sansldap as L
 INT = [0, 1, 2, 127, 128, 255, 256, 32767, 32768, 65535, 65536, 2**24 - 1, 2**24, 2**31 - 2, 2**31 - 1, 2**31, 2**32 - 1,
        2**32, 2**63 - 1, 2**63, 2**64, -1, -127, -128, -129, -255, -256, -257, -32768, -32769, -65536, -65537, -(2**24),
        -(2**31), -(2**31) - 1, -(2**63), -(2**64)]  # fmt: skip
-STR = ["", "a", "dc=x", "é", "☺", "\U0001F600", "\x00", "a" * 127, "a" * 128, "a" * 255, "a" * 256]
+STR = ["", "a", "dc=x", "é", "☺", "\U0001F600", "\x00", "a" * 127, "a" * 128, "a" * 255, "a" * 256,
+       # content a normalising / canonicalising decoder would alter: percent-escapes, case, surrounding and inner
+       # whitespace, control characters, a backslash escape, a NUL in the middle, a BOM, a combining sequence
+       "ldap://h/ou=Sales%20Team??sub?(cn=100%25)", "%41%zz%", "MiXeD CaSe", "  lead and trail  ", "\t\r\n", "a\\2ab\\\\", "a\x00b", "\ufeffx", "e\u0301"]
 BYTES = [b"", b"\x00", b"a", b"\xff", b"\x80\x00", bytes(range(256)), b"x" * 127, b"x" * 128, b"x" * 255, b"x" * 256]
 STR_BIG = ["a" * 65535, "a" * 65536]
 BYTES_BIG = [b"x" * 65535, b"x" * 65536]
